@@ -121,7 +121,7 @@ SidStep(p) ==
 \* the client's Dial returns: the server is (or just was) in its GBN handshake
 \* at the same rendezvous
 HalfOpenSrv(sid) == {i \in 1..nConns : conns[i].owner = Srv /\ conns[i].peer = 0
-                                       /\ conns[i].sid = sid}
+                                       /\ conns[i].sid = sid /\ conns[i].st = "open"}
 CDialRet(c) ==
     /\ c \in Clients /\ pc[c] = "conn" /\ nConns < MaxConns
     /\ psid[Srv] = psid[c] /\ psid[c] \in boxes
